@@ -1,11 +1,10 @@
 #!/bin/bash
-# Builds the harness once (warms the Go build cache). Offline.
+# Builds both harness binaries once (warms the Go build cache). Offline.
 set -e
 cd "$(dirname "$0")"
 export GOFLAGS=-mod=mod GOPROXY=off
 unset GOSUMDB
 cp /repo/go.sum ./go.sum 2>/dev/null || true
 mkdir -p .build evidence
-echo '{"Replace":{}}' > .build/overlay0.json
-go build -tags verif -o .build/vharness ./cmd/vharness
+./check build
 echo setup ok
